@@ -70,10 +70,18 @@ type scenario struct {
 	Workers  int    `json:"workers"`
 	Signal   bool   `json:"signal"`   // an external cancel (SIGINT) arrives at an arbitrary point
 	ErrKind  string `json:"err_kind"` // "plain" | "canceled" (context.Canceled although nothing was cancelled)
+	// Tick: the fake clock may advance by one second at any scheduling point although goroutines could run
+	// (one more alternative per point; only for scenarios in which callers wait inside the pool's queue,
+	// whose 1 s back-stop timer may fire while commands are still running)
+	Tick bool `json:"early_clock_tick,omitempty"`
 }
 
 func (s scenario) name() string {
-	return fmt.Sprintf("%s/fail=%v/ff=%v/w=%d/sig=%v/%s", s.Graph, s.Fail, s.FailFast, s.Workers, s.Signal, s.ErrKind)
+	n := fmt.Sprintf("%s/fail=%v/ff=%v/w=%d/sig=%v/%s", s.Graph, s.Fail, s.FailFast, s.Workers, s.Signal, s.ErrKind)
+	if s.Tick {
+		n += "/tick"
+	}
+	return n
 }
 
 func specOf(name string) graphSpec {
@@ -431,9 +439,7 @@ func (sc scenario) run(t *testing.T, cfg vs.Config) explore.Exec {
 
 func (sc scenario) scenario() explore.Scenario {
 	es := explore.Scenario{Name: sc.name(), Desc: sc, Run: sc.run, Horizon: 3, MaxSteps: 4000}
-	// more ready targets than workers: callers wait inside the pool's queue, whose 1 s backstop
-	// timer may fire while commands are still running
-	if sc.Workers == 1 && (sc.Graph == "indep3" || sc.Graph == "indep4" || sc.Graph == "fork") {
+	if sc.Tick {
 		es.ClockChoices = 1
 	}
 	return es
@@ -508,7 +514,12 @@ func TestVerif(t *testing.T) {
 	budget := time.Duration(vrep.EnvInt("VERIF_BUDGET_S", 60)) * time.Second
 	deadline := time.Now().Add(budget)
 	if rp := explore.ReplayFromEnv(); rp != nil {
+		all := scenarios(prop, true)
 		for _, sc := range scenarios(prop, true) {
+			sc.Tick = true
+			all = append(all, sc)
+		}
+		for _, sc := range all {
 			if sc.name() == rp.Scenario {
 				explore.RunReplay(t, sc.scenario(), rp.Choices)
 			}
@@ -517,6 +528,14 @@ func TestVerif(t *testing.T) {
 		return
 	}
 	scs := interleaveByGraph(scenarios(prop, vrep.Thorough()))
+	// the early-clock-tick variants (about three times as many schedules per bound) come after all plain
+	// scenarios: a wall-clock cap at the highest bound then costs tick variants first
+	for _, sc := range scs {
+		if sc.Workers == 1 && (sc.Graph == "indep3" || sc.Graph == "indep4" || sc.Graph == "fork") {
+			sc.Tick = true
+			scs = append(scs, sc)
+		}
+	}
 	only := os.Getenv("VERIF_ONLY")
 	var execs, steps int64
 	// iterate the bound: every scenario at bound 1, then every scenario at bound
